@@ -228,6 +228,38 @@ fn main() {
                         exec_pprm(ctx, &Ev::new("pprm", "Esop", n).tab(&f));
                     }
                 }
+                // tables whose 64-bit blocks are related through the transform itself: a block, its Reed-Muller
+                // coefficient table, their complements, zero, all ones (fast paths that compare blocks)
+                if n >= 7 {
+                    for _ in 0..if thorough { 200 } else { 24 } {
+                        let a = Model::from_blocks(6, &[rng.next_u64()]);
+                        let rm = {
+                            let anf = a.anf();
+                            let mut w = 0u64;
+                            for (s, b) in anf.iter().enumerate() {
+                                if *b {
+                                    w |= 1u64 << s;
+                                }
+                            }
+                            w
+                        };
+                        let a0 = a.to_blocks()[0];
+                        let choices = [a0, rm, !a0, !rm, 0u64, !0u64];
+                        let uniform = rng.below(3) != 0;
+                        let pick_all = *rng.pick(&choices[..4]);
+                        let blocks: Vec<u64> = (0..gen::words(n))
+                            .map(|k| if k == 0 { a0 } else if uniform { pick_all } else { *rng.pick(&choices) })
+                            .collect();
+                        exec_pprm(ctx, &Ev::new("pprm", "Esop", n).tab(&blocks));
+                    }
+                }
+                // every symmetric function
+                if c == 0 {
+                    for blocks in gen::all_symmetric(n) {
+                        exec_pprm(ctx, &Ev::new("pprm", "Esop", n).tab(&blocks));
+                    }
+                    ctx.exhaustive.insert(format!("all symmetric functions, n={}", n), true);
+                }
                 // single monomials and their sums: the ANF is known by construction
                 for _ in 0..if thorough { 40 } else { 6 } {
                     let s = rng.below(1 << n);
